@@ -60,6 +60,11 @@ Seeded changes (second round):
         ConnDictConn.tla (connect command x close() interleavings), close() run by the stale timer while the connect
         command is held inside the engine; caught as dict:codec-never-closed:close-during-negotiation / -dictionary.
 
+  C09-3 (checkPong flips a consumed lastPing back to positive): witness schedule wit_pong.cfg (ping, pong, pong check
+        passes, second pong before the next ping) replayed on every run; caught as pong:not-closed.
+  C09-4 (handleRefresh writes the success reply after the "expired" error reply): handler outcome "past" (ExpireAt > 0
+        not in the future) for refresh and sub_refresh, sync and async; caught as dup-reply:refresh:past.
+
 Mutation testing (scratch worktrees /tmp/connect-*, each run through the harness mode of the property; caught = VIOLATION
 with a signature other than the known ones above):
   C09  caught: authenticated gate dropped for presence (gate:not-closed:presence); history error reply written twice
@@ -182,6 +187,11 @@ def c09(c):
         lambda: c.tlc_exhaustive('Connect', 'Connect', dump_cfg, workers=4, timeout=3000, dump=True),
         lambda: c.tlc('Connect', 'ConnectSim', 'sim.cfg', simulate=nsim, depth=18, timeout=1500),
         lambda: c.go_build('connect'))
+    # witness schedule: ping, pong, the pong check passes, one more pong before the next ping
+    wp = c.tlc('Connect', 'Connect', 'wit_pong.cfg', workers=2, timeout=600, expect_violation=True)
+    wit = _trace(wp['out'])
+    if not wit:
+        raise vf.Inconclusive('the pong witness run produced no schedule:\n' + wp['out'][-1500:])
     c.log('TLC exhaustive %s (closes delayed arbitrarily): %d distinct / %d generated' % (design_cfg, r1['distinct'], r1['states']))
     c.log('TLC exhaustive %s (reader that does not stop): %d distinct / %d generated' % (loose_cfg, r1b['distinct'], r1b['states']))
     c.log('TLC exhaustive %s (one state per path): %d distinct / %d generated' % (dump_cfg, r2['distinct'], r2['states']))
@@ -189,7 +199,7 @@ def c09(c):
         raise vf.Inconclusive('simulation failed: %s\n%s' % (s['error'], s['out'][-3000:]))
     behs = _paths(c.dump_states(r2))
     c.log('%d maximal command sequences from the dump' % len(behs))
-    sims = [_strip(b) for b in c.behaviours(s)]
+    sims = [_strip(wit)] + [_strip(b) for b in c.behaviours(s)]
     c.log('%d simulated behaviours' % len(sims))
     total = {'executed': 0, 'completed': 0}
     for name, bs in (('dump', behs), ('sim', sims)):
